@@ -122,34 +122,54 @@ func (p *Prog) failstopCheck(fn *ssa.Function, c *ssa.Call, stV, errV ssa.Value)
 				return
 			case *ssa.If:
 				t, e := true, true
-				switch cond := x.Cond.(type) {
-				case *ssa.BinOp:
-					if cond.Op == token.EQL || cond.Op == token.NEQ {
-						eq := cond.Op == token.EQL
-						var holds, known bool
-						switch {
-						case isErr(cond.X, f.env) && isNilConst(cond.Y), isErr(cond.Y, f.env) && isNilConst(cond.X):
-							holds, known = true, true // err == nil holds
-						case isSt(cond.X, f.env):
-							if k, ok := constInt(cond.Y); ok {
-								holds, known = k == failedK, true
+				// what the assumption (status == failed, err == nil) says about a test
+				condKnown := func(cv ssa.Value) (holds, known bool) {
+					switch cond := cv.(type) {
+					case *ssa.BinOp:
+						if cond.Op == token.EQL || cond.Op == token.NEQ {
+							eq := cond.Op == token.EQL
+							var h, k bool
+							switch {
+							case isErr(cond.X, f.env) && isNilConst(cond.Y), isErr(cond.Y, f.env) && isNilConst(cond.X):
+								h, k = true, true // err == nil holds
+							case isSt(cond.X, f.env):
+								if c, ok := constInt(cond.Y); ok {
+									h, k = c == failedK, true
+								}
+							case isSt(cond.Y, f.env):
+								if c, ok := constInt(cond.X); ok {
+									h, k = c == failedK, true
+								}
 							}
-						case isSt(cond.Y, f.env):
-							if k, ok := constInt(cond.X); ok {
-								holds, known = k == failedK, true
+							if k {
+								return h == eq, true
 							}
 						}
-						if known {
-							if holds == eq {
-								e = false
-							} else {
-								t = false
-							}
+					case *ssa.Call:
+						if len(cond.Call.Args) > 0 && p.isFailedMethod(cond.Call.StaticCallee()) && isSt(cond.Call.Args[0], f.env) {
+							return true, true
 						}
 					}
-				case *ssa.Call:
-					if p.isFailedMethod(cond.Call.StaticCallee()) && isSt(cond.Call.Args[0], f.env) {
+					return false, false
+				}
+				if holds, known := condKnown(x.Cond); known {
+					if holds {
 						e = false
+					} else {
+						t = false
+					}
+				} else if pc, ok := x.Cond.(*ssa.Call); ok && !pc.Call.IsInvoke() {
+					// a named test (`anyItemDone(res, found)`) judged under the assumption
+					switch predTruth(pc, func(cv ssa.Value) tri {
+						if holds, known := condKnown(cv); known {
+							return triOf(holds)
+						}
+						return triUnknown
+					}, 0) {
+					case triTrue:
+						e = false
+					case triFalse:
+						t = false
 					}
 				}
 				for si, s := range b.Succs {
